@@ -281,3 +281,10 @@ def run(ctx):
     ctx.rule('C10.CACHES', lambda: c11.rule_cachefill(ctx, 'C10.CACHES'), 4)
     from . import c03
     ctx.rule('C10.TOUCHED', lambda: c03.rule_touched(ctx, 'C10.TOUCHED'), 4)
+    # the history cache is invalidated by the touched sets only: the chain that carries them from the block processor and the
+    # mempool to _notify_sessions (report after flush with the set reset by rebinding, hand-over, the Notifications join) is
+    # as much a condition of "never stale" as the eviction itself
+    from . import c07 as _c07, c20 as _c20
+    ctx.rule('C07.FLUSHNOTIFY', lambda: _c07.rule_flushnotify(ctx), 4)
+    ctx.rule('C07.HANDOVER', lambda: _c07.rule_mempool_handover(ctx), 4)
+    ctx.rule('C20', lambda: _c20._run(ctx))
